@@ -35,7 +35,7 @@ RULE = ('checksum: chunk sizes {1,2,7,64,4096,65536,>size,default,-1} x sizes k*
         'hashlib.algorithms_available over the run) + missing file/dir/bad algorithm/chunk 0,-2; last_bytes: sizes {0,1,2,10,4095..4097,70000} x '
         'n in {0,1,size-1,size,size+1,2^40,2^63-1,2^63,2^63+1,-1,-3,random}; ensure_tree/delete_if_exists/write_to_tempfile on real trees: '
         'missing depth 0..4 below existing depth 0..2, existing directory, file at the path, file as an ancestor, random worlds, each run twice '
-        '(idempotence); real short writes (RLIMIT_FSIZE in a subprocess, sizes L-1, L, L+1, 2L+1); class x errno injection (OSError(errno), user subclass, errno assigned later, builtin subclass with a foreign errno); short-write injection into os.write (at most 1, 3, 4096 bytes per call) x sizes around the multiples of the limit; fault injection: every errno of errno.errorcode + {0,133,200,9999} + non-OSError x target {dir,file,missing}; '
+        '(idempotence); environment variation (sys.stdin.encoding utf-8/latin-1/ascii/cp1252/None x contents with all 256 byte values, NULs, invalid UTF-8) for write_to_tempfile/checksum/last_bytes; real short writes (RLIMIT_FSIZE in a subprocess, sizes L-1, L, L+1, 2L+1); class x errno injection (OSError(errno), user subclass, errno assigned later, builtin subclass with a foreign errno); short-write injection into os.write (at most 1, 3, 4096 bytes per call) x sizes around the multiples of the limit; fault injection: every errno of errno.errorcode + {0,133,200,9999} + non-OSError x target {dir,file,missing}; '
         'distinct = distinct case JSON; trivial = none')
 
 RUN_ROOT = None
@@ -66,6 +66,7 @@ def _fu():
 def content_of(d):
     """deterministic content from a small descriptor (keeps the case JSON small)"""
     if 'hex' in d: return bytes.fromhex(d['hex'])
+    if d.get('kind') == 'allbytes': return bytes(range(256)) * d.get('times', 1)
     n, s = d['size'], d.get('seed', 0)
     # period 251*256: no alignment with any power-of-two chunk size
     base = bytes(((i * 7 + s * 13 + (i // 251) * 31) & 255) for i in range(min(n, 251 * 256)))
@@ -278,6 +279,18 @@ def gen_cases(rng, tier):
             yield {'op': 'write_to_tempfile', 'world': [['D', 'a', None]], 'path': rng.choice(['a', 'a/n1', None]),
                    'content': {'size': size, 'seed': rng.randrange(50)}, 'suffix': rng.choice(sufs), 'prefix': rng.choice(pres),
                    'defaults': False, 'wlimit': lim}
+    # environment: sys.stdin.encoding in {utf-8, latin-1, ascii, cp1252, None} x contents with every byte value, NULs, invalid UTF-8
+    special = [{'kind': 'allbytes'}, {'hex': '00'}, {'hex': '000000'}, {'hex': '80'}, {'hex': 'ff'}, {'hex': 'c328'}, {'hex': 'e9'},
+               {'hex': 'fffe0080'}, {'hex': 'c3a9'}, {'hex': 'f0288cbc'}, {'hex': 'eda080'}, {'hex': '61e962'}, {'size': 300, 'seed': 7}]
+    for enc in STDIN_ENCS:
+        for cd in special:
+            yield {'op': 'write_to_tempfile', 'world': [], 'path': rng.choice(['a', None]), 'content': cd, 'suffix': rng.choice(sufs),
+                   'prefix': rng.choice(pres), 'defaults': False, 'wlimit': rng.choice([None, 3]), 'stdin_enc': enc}
+        for cd in (special[0], special[7], special[11]):
+            ch_ = rng.choice([1, 7, 64, None])
+            yield {'op': 'checksum', 'content': cd, 'chunk': ch_, 'alg': rng.choice(['md5', 'sha256'] + ([None] if ch_ is None else [])), 'stdin_enc': enc}
+            n_ = len(content_of(cd))
+            yield {'op': 'last_bytes', 'content': cd, 'num': rng.choice([0, 1, n_ - 1, n_, n_ + 1, 2 ** 40]), 'stdin_enc': enc}
     # REAL short writes: RLIMIT_FSIZE = L in a subprocess, sizes around the limit (not modelled: oracle only)
     for L in ((4096,) if tier == 'quick' else (1, 4096, 65536)):
         for size in (L - 1, L, L + 1, 2 * L + 1):
@@ -359,7 +372,29 @@ def _write_under_rlimit(base, c):
     out = r.stdout.strip().splitlines()
     return out[-1] if out else 'SUBPROCESS-FAILED:%d:%s' % (r.returncode, r.stderr.strip()[-200:])
 
+class _FakeStdin:
+    """stands in for sys.stdin: only its .encoding matters (oslo's encodeutils consults sys.stdin.encoding)"""
+    def __init__(self, enc): self.encoding = enc
+    def read(self, *a): return ''
+    def readline(self, *a): return ''
+    def fileno(self): raise OSError(errno.EBADF, 'no descriptor')
+    def isatty(self): return False
+
+STDIN_ENCS = ['utf-8', 'latin-1', 'ascii', 'cp1252', 'none']
+
 def _impl(c):
+    """the ENVIRONMENT is part of the case: the bytes helpers must not depend on the locale / stdin encoding"""
+    enc = c.get('stdin_enc')
+    if enc is None:
+        return _impl2(c)
+    saved = sys.stdin
+    sys.stdin = _FakeStdin(None if enc == 'none' else enc)
+    try:
+        return _impl2(c)
+    finally:
+        sys.stdin = saved
+
+def _impl2(c):
     fu = _fu()
     op = c['op']
     base = os.path.join(_root(), 'c%d' % next(_counter))
@@ -665,8 +700,8 @@ def oracle(c, io):
 def classify(c, io):
     op = c['op']
     if op == 'checksum': return 'checksum:' + ('exn' if not io.startswith('OK') else 'default' if c['chunk'] is None else 'chunk')
-    if op == 'last_bytes': return 'last_bytes:' + ('exn' if not io.startswith('OK') else 'fallback' if c['num'] > c['content']['size'] else 'seek')
-    return op + (':short' if c.get('wlimit') else '') + ':' + io.split(':', 1)[0].split(' ')[0]
+    if op == 'last_bytes': return 'last_bytes:' + ('exn' if not io.startswith('OK') else 'fallback' if c['num'] > len(content_of(c['content'])) else 'seek')
+    return op + (':short' if c.get('wlimit') else '') + (':env' if c.get('stdin_enc') else '') + ':' + io.split(':', 1)[0].split(' ')[0]
 
 def search(rng, budget):
     for _ in range(budget):
